@@ -7,11 +7,11 @@ RB = '$' + 'B' * 40      # in the consensus
 RX = '$' + 'C' * 40      # NOT in the consensus
 LONG = {RA: RA + '~relaya', RB: RB + '=relayb', RX: RX + '~ghost'}
 
-C_LAUNCHED, C_EXT1, C_EXT2, C_BUILT, C_CLOSED, C_FAILED = range(6)
+C_LAUNCHED, C_EXT1, C_EXT2, C_BUILT, C_CLOSED, C_FAILED, C_BUILT_ALT = range(7)
 S_NEW, S_SENT1, S_SENT2, S_REMAP, S_SUCC, S_DETACH, S_CLOSED, S_FAILED, S_REMAP0 = range(9)
-NC = 6
+NC = 7
 NS = 9
-CNAMES = ['LAUNCHED', 'EXTENDED', 'EXTENDED', 'BUILT', 'CLOSED', 'FAILED']
+CNAMES = ['LAUNCHED', 'EXTENDED', 'EXTENDED', 'BUILT', 'CLOSED', 'FAILED', 'BUILT']
 SNAMES = ['NEW', 'SENTCONNECT', 'SENTCONNECT', 'REMAP', 'SUCCEEDED', 'DETACHED', 'CLOSED', 'FAILED', 'REMAP']
 
 
@@ -47,9 +47,11 @@ class TorModel(object):
             if st == 'LAUNCHED':
                 return ev in (C_EXT1, C_FAILED)
             if st == 'EXTENDED':
+                # C_BUILT_ALT: BUILT reported with a hop list that is not an extension of the last one (Tor always
+                # reports the full current path; a controller must take it as it is)
                 if len(c['path']) == 1:
-                    return ev in (C_EXT2, C_BUILT, C_FAILED)
-                return ev in (C_BUILT, C_FAILED)
+                    return ev in (C_EXT2, C_BUILT, C_FAILED, C_BUILT_ALT)
+                return ev in (C_BUILT, C_FAILED, C_BUILT_ALT)
             if st == 'BUILT':
                 return ev == C_CLOSED
             return False
@@ -91,6 +93,11 @@ class TorModel(object):
                 elif ev == C_BUILT:
                     c['path'] = c['path'] + [RB]
                     self.log = [('circuit_extend', oid, RB), ('circuit_built', oid)]
+                elif ev == C_BUILT_ALT:
+                    old = len(c['path'])
+                    c['path'] = [RB, RA, RX][:max(old, 2)] if old < 3 else [RB, RA, RX]
+                    # (listeners hear circuit_extend only for hops beyond the previous length: not compared for this event)
+                    self.log = None
                 elif ev == C_CLOSED:
                     kw['REASON'] = 'FINISHED'
                     self.log = [('circuit_closed', oid, 'FINISHED')]
@@ -110,7 +117,8 @@ class TorModel(object):
             return 'CIRC', ' '.join(words)
         # stream
         host = 'www.s%d.example:80' % oid
-        ip = '10.0.0.%d:80' % oid
+        self.nremap = getattr(self, 'nremap', 0)
+        ip = '10.0.%d.%d:80' % (self.nremap, oid)
         if ev == S_NEW:
             kw = {'SOURCE_ADDR': '127.0.0.1:%d' % (4000 + oid), 'PURPOSE': 'USER'}
             self.stream[oid] = {'status': 'NEW', 'target': host, 'on': None, 'addr': None,
@@ -126,6 +134,9 @@ class TorModel(object):
             self.log = [('stream_attach', oid, cid)]
             return 'STREAM', '%d SENTCONNECT %d %s' % (oid, cid, host)
         cid = s['on'][0] if s['on'] else 0
+        if ev in (S_REMAP, S_REMAP0):
+            self.nremap += 1
+            ip = '10.0.%d.%d:80' % (self.nremap, oid)
         if ev == S_REMAP:
             s['status'] = 'REMAP'
             s['addr'] = ip.split(':')[0]
@@ -173,7 +184,7 @@ class TorModel(object):
         for sid in sorted(self.stream):
             s = self.stream[sid]
             cid = s['on'][0] if s['on'] else 0
-            tgt = ('10.0.0.%d:80' % sid) if s['status'] in ('SUCCEEDED', 'REMAP') else s['target']
+            tgt = ('10.0.0.%d:80' % sid) if s['status'] in ('SUCCEEDED', 'REMAP') else s['target']     # (snapshot lines carry their own target)
             slines.append('%d %s %d %s' % (sid, s['status'], cid, tgt))
         if len(slines) == 0:
             stext = 'stream-status='
